@@ -512,9 +512,10 @@ class Model:
                     if static_text is None and v is default_marker():
                         self.raw_attr_relevant = True
                         if self.raw_default_attr:
-                            raw = "".join(
-                                p[1] if p[0] == "lit" else "${P(%d)}"
-                                % p[1]["id"] for p in parts)
+                            from .gen import Ser
+                            ser = Ser()
+                            ser.parts(parts)
+                            raw = "".join(ser.buf)
                             self.out.append(' %s="%s"' % (name, raw))
                         else:
                             s_ = self.text_parts(parts, esc_attr)
